@@ -105,13 +105,40 @@ def _shifted_system(fc, Sy: RuleResult):
         Sy.bad(bw, enclosing_stmt(outside[0]) if outside else bw.node, "a projection applies M outside `with M.uselinopparams(*mparams)`: it uses the tensors the operator object holds at "
                "backward time instead of the ones saved by forward (wrong when the same operator is reused with other parameters in between)")
     # the degeneracy map is only used when degeneracy was detected
-    src = ast.unparse(bw.node)
-    if "idx_degen, isdegenerate = _check_degen(evals, degen_atol, degen_rtol)" in src and "if not isdegenerate:\n    idx_degen = None" in src.replace("        ", "    ").replace("    " * 2, "    "):
-        Sy.ok(bw.fq, "the degeneracy map comes from _check_degen(evals, atol, rtol) and is dropped when nothing is degenerate")
-    elif has_form(bw.node, "_check_degen(evals, degen_atol, degen_rtol)", "idx_degen = None"):
-        Sy.ok(bw.fq, "the degeneracy map comes from _check_degen(evals, atol, rtol) and is dropped when nothing is degenerate")
+    from ..flow import origins
+    defs = function_defs(bw.node)
+    calls = [x for x in own_nodes(bw.node) if isinstance(x, ast.Call) and ast.unparse(x.func) == "_check_degen"]
+    if not calls:
+        elsewhere = [g.qualname for g in bw.module.functions.values() if g is not bw and g.qualname != "_check_degen"
+                     and any(isinstance(x, ast.Call) and ast.unparse(x.func) == "_check_degen" for x in own_nodes(g.node))]
+        if elsewhere:
+            Sy.undecided(bw, bw.node, "cannot find the call of _check_degen in symeig_torchfcn.backward: it is made in %s, which could not be inlined" % elsewhere[0])
+        else:
+            Sy.bad(bw, bw.node, "the degeneracy map must be computed by _check_degen(evals, degen_atol, degen_rtol)")
+        return
+    for x in calls:
+        args = list(x.args) + [k.value for k in x.keywords]
+        okc = len(args) == 3 and not any(isinstance(a_, ast.Starred) for a_ in args)
+        if okc:
+            kwn = {k.arg: k.value for k in x.keywords}
+            a0 = x.args[0] if x.args else kwn.get("evals")
+            a1 = x.args[1] if len(x.args) > 1 else kwn.get("degen_atol")
+            a2 = x.args[2] if len(x.args) > 2 else kwn.get("degen_rtol")
+            okc = a0 is not None and a1 is not None and a2 is not None and ast.unparse(a0) == "evals"
+            if okc:
+                def keys(e):
+                    txt = " ".join(ast.unparse(o) for o in origins(e, defs)) + " " + ast.unparse(e)
+                    return ("degen_atol" in txt, "degen_rtol" in txt)
+                okc = keys(a1) == (True, False) and keys(a2) == (False, True)
+        if okc:
+            Sy.ok(bw.fq, "the degeneracy map comes from _check_degen(evals, atol, rtol): the tolerances are the options of the same name, in this order")
+        else:
+            Sy.bad(bw, enclosing_stmt(x), "the degeneracy map must be computed by _check_degen(evals, degen_atol, degen_rtol)")
+    if has_form(bw.node, "idx_degen = None"):
+        Sy.ok(bw.fq, "the degeneracy map is dropped when nothing is degenerate")
     else:
-        Sy.bad(bw, bw.node, "the degeneracy map must be computed by _check_degen(evals, degen_atol, degen_rtol)")
+        Sy.bad(bw, enclosing_stmt(calls[0]), "the degeneracy map must be dropped (idx_degen = None) when no eigenvalues are degenerate: the projector then removes the whole "
+               "eigenvector component")
 
 
 def _pullback_formulas(fc, Mr: RuleResult):
